@@ -28,6 +28,7 @@ import (
 //	price <ok|panic> <p>                      (ranged: NewRangedPool(current state).Price())
 //	bao <price> <ok|panic> <amt>              (BuyAmountOver on the current ranged pool)
 //	sau <price> <ok|panic> <amt>              (SellAmountUnder on the current ranged pool)
+//	cre <x> <y> <min> <max> <init> <ok|err|panic> <ax> <ay>   (one more CreateRangedPool call, c06_balanced_test.go)
 
 var c06P18 = new(big.Int).Exp(big.NewInt(10), big.NewInt(18), nil)
 
@@ -514,6 +515,10 @@ func TestC06Ranged(t *testing.T) {
 		if ci < len(wits) {
 			w := wits[ci]
 			c06RangedCreate(tr, r, ci, w.x, w.y, w.min, w.max, w.init, 4)
+			continue
+		}
+		if r.chance(35) { // exactly balanced offers (c06_balanced_test.go)
+			c06BalancedCase(tr, r, ci)
 			continue
 		}
 		if r.chance(35) {
